@@ -15,16 +15,17 @@ typedef _Bool nbool;
 
 /* ---- exceptions (rule D4) ---- */
 enum { EXC_NONE = 0, EXC_NITRO = 1, EXC_PARSER_ERROR = 2, EXC_PARSING_ERROR = 3, EXC_DL = 4,
-       EXC_STD = 5, EXC_ELEM = 6 };
+       EXC_STD = 5, EXC_ELEM = 6, EXC_TERMINATE = 7 /* exception left a noexcept function: std::terminate */ };
 extern int nitro_exc;
 /* NITRO_CLEANUP: what C++ runs while the exception leaves the function (rule D5): empty except in
  * non-delegating constructors, where the already-constructed members are destroyed */
-#define NITRO_THROW(e) do { nitro_exc = (e); NITRO_CLEANUP; return NITRO_DFLT; } while (0)
-#define NITRO_PROPAGATE do { if (nitro_exc) { NITRO_CLEANUP; return NITRO_DFLT; } } while (0)
+#define NITRO_THROW(e) do { nitro_exc = NITRO_EXC_MAP(e); NITRO_CLEANUP; return NITRO_DFLT; } while (0)
+#define NITRO_PROPAGATE do { if (nitro_exc) { nitro_exc = NITRO_EXC_MAP(nitro_exc); NITRO_CLEANUP; return NITRO_DFLT; } } while (0)
 
 /* ---- ghost witnesses (section 4.2) ---- */
 extern size_t g_w;   /* arbitrary index: proving P(g_w) proves forall k. P(k) */
 extern size_t g_n;   /* arbitrary length of an input range */
+extern size_t g_in[16];   /* input recording slots (NITRO_REC): havocked by the harness, tied to pre-state values by the enforced contract */
 size_t nondet_size_t(void);
 
 /* ---- element type of containers (rule D1): opaque 64-bit value whose assignment may raise ---- */
